@@ -460,6 +460,15 @@ def run_impl(case):
     class Res(wiring.Component):
         def __init__(self):
             super().__init__({})
+
+    class ResEq(Res):
+        """resources that compare (and hash) equal to each other: distinct objects are distinct resources all
+        the same (the map is keyed by identity)"""
+        def __eq__(self, other):
+            return isinstance(other, ResEq)
+
+        def __hash__(self):
+            return 7
     at = Atoms()
     maps = []
     objs = {}
@@ -497,7 +506,7 @@ def run_impl(case):
             _, mi, rid, comp, name, size, addr, alg = op
             key = (rid, comp)
             if key not in objs:
-                objs[key] = Res() if comp else object()
+                objs[key] = (ResEq() if rid % 2 else Res()) if comp else object()
                 ids[id(objs[key])] = rid
             o = objs[key]
             out.append(call(lambda: maps[mi].add_resource(o, name=_pyname(name), size=_pyarg(size),
@@ -516,6 +525,13 @@ def run_impl(case):
             addrs, rids = op[1], op[2]
             o_all = []
             for m in maps:
+                # queries that stop early (a search that found its item, a dropped generator) come first: the
+                # complete ones below must not depend on them
+                for q in (m.resources, m.windows, m.window_patterns, m.all_resources):
+                    try:
+                        it = q(); next(it, None); del it
+                    except Exception:
+                        pass
                 rs = [[ids[id(r)], enc_name(nm), s, e] for r, nm, (s, e) in m.resources()]
                 ws = [[mapid[id(w)], [] if nm is None else [enc_name(nm)], s, e, r] for w, nm, (s, e, r) in m.windows()]
                 ps = [[mapid[id(w)], [2 if c == "-" else int(c) for c in pat], r] for w, nm, (pat, r) in m.window_patterns()]
